@@ -60,28 +60,28 @@ func writeEvidence(prop, tier string, seed uint64, a *WorkerOut, wall time.Durat
 		perHour = float64(a.Runs) / wall.Hours()
 	}
 	cov := map[string]interface{}{
-		"evaluations":                a.Runs,
-		"distinct_nontrivial":        len(distinct),
-		"nontrivial_runs":            a.NonTrivial,
-		"rule":                       info.rule,
-		"samples":                    samples,
-		"runs_per_hour":              int64(perHour),
-		"seeds_per_hour":             int64(perHour),
-		"workers":                    workers,
-		"simulated_time_s":           a.SimMs / 1000,
-		"scheduling_points":          a.Steps,
-		"scheduler_decisions":        a.Decisions,
-		"context_switches":           a.Switches,
-		"storage_events":             a.Events,
-		"faults_fired":               a.Fired,
-		"reach_probes":               a.Probes,
-		"distinct_lsm_shapes":        len(a.Shapes),
-		"distinct_switch_site_pairs": map[string]interface{}{"max_in_one_run": a.PairsMax, "sum_over_runs": a.PairsSum},
-		"step_limit_inconclusive":    a.StepLimit,
-		"notes_other_oracles":        a.Notes,
+		"evaluations":                 a.Runs,
+		"distinct_nontrivial":         len(distinct),
+		"nontrivial_runs":             a.NonTrivial,
+		"rule":                        info.rule,
+		"samples":                     samples,
+		"runs_per_hour":               int64(perHour),
+		"seeds_per_hour":              int64(perHour),
+		"workers":                     workers,
+		"simulated_time_s":            a.SimMs / 1000,
+		"scheduling_points":           a.Steps,
+		"scheduler_decisions":         a.Decisions,
+		"context_switches":            a.Switches,
+		"storage_events":              a.Events,
+		"faults_fired":                a.Fired,
+		"reach_probes":                a.Probes,
+		"distinct_lsm_shapes":         len(a.Shapes),
+		"distinct_switch_site_pairs":  map[string]interface{}{"max_in_one_run": a.PairsMax, "sum_over_runs": a.PairsSum},
+		"step_limit_inconclusive":     a.StepLimit,
+		"notes_other_oracles":         a.Notes,
 		"determinism_rechecked_seeds": detChecked,
-		"components":                 realStub,
-		"exhaustive":                 false,
+		"components":                  realStub,
+		"exhaustive":                  false,
 	}
 	ev := map[string]interface{}{
 		"property_id": prop,
